@@ -25,7 +25,19 @@ def api_memory(wl):
 
 def generate(wl):
     """-> dict(words | None, exc info).  Runs the real generator."""
-    ops, acc_enum, api = apigen.materialise(wl)
+    from ethosu.vela import api
+
+    acc_enum = getattr(api.NpuAccelerator, wl["acc"])
+    ops, kept = [], []
+    for d in wl["ops"]:
+        try:
+            ops.append(apigen.make_op(api, d, acc_enum))
+            kept.append(d)
+        except AssertionError:
+            # the block-configuration query offers nothing for this operation (it asserts): not an operation the generator
+            # can be given; dropped from the list (in place, so that callers keep comparing like with like)
+            pass
+    wl["ops"][:] = kept
     try:
         words = api.npu_generate_register_command_stream(ops, acc_enum)
         return dict(words=[int(w) for w in words], ops=ops, api=api, acc_enum=acc_enum)
@@ -338,6 +350,12 @@ class C06(ApiCheck):
             elif src["t"] in ("conv", "dw", "pool") and m < 0.5:
                 src["pad"] = [min(1, p) if r.random() < 0.5 else p for p in src["pad"]]
             ops.insert(r.randint(0, len(ops)), src)
+        # operations from the wide single-operation generator (large shapes and kernels, upscaling, int32, REDUCE_SUM, LUT):
+        # register fields the small shared pool never exercises, spliced between pool operations so that they are also
+        # emitted against a history (encoding only: their private addresses carry no dependency meaning)
+        for _ in range(r.choice([0, 0, 1, 2, 3])):
+            one = apigen.gen_single_op(r, acc)["ops"][0]
+            ops.insert(r.randint(0, len(ops)), one)
         return wl
 
     def run_case(self, desc):
